@@ -1059,12 +1059,19 @@ impl ReCompiler {
         op1: &Operation,
         case_blind: bool,
         reluctant: bool,
+        multi_line: bool,
     ) -> bool {
         if matches!(op1, Operation::EndProgram(_)) {
             return !reluctant;
         }
-        if matches!(op1, Operation::Bol(_)) || matches!(op1, Operation::Eol(_)) {
-            return true;
+        if matches!(op1, Operation::Bol(_)) {
+            // giving back repetitions can move the position back to a line start
+            return false;
+        }
+        if matches!(op1, Operation::Eol(_)) {
+            // in multi-line mode '$' also matches before a newline, which the
+            // repeated term may itself consume
+            return !multi_line || !op0.get_initial_character_class(case_blind).contains('\n');
         }
         if let Some(repeat_operation) = op1.repeat_operation() {
             if repeat_operation.min() == 0 {
